@@ -2,36 +2,15 @@
 # Repaired by fix: commits (no classifier): unary operand dropped, trailing comma before `;` in a
 # multi-bind local, `tailstrict` dropped, `f+: function` printed as a method, object-comprehension
 # specs glued together, inline `//`/`#` comment swallowing the rest of a one-line list.
-# The classifiers below recognise (a) comments written where the formatter has no trivia handling
-# and (b) two crashes that belong to C20 (never crashes) but also break C19's "declines or emits".
+# Round 3: comments written between the tokens of a construct (everywhere but between list items)
+# were dropped; repaired (ct/cl/co printer items + trivia of children_between printed), so the
+# classifier c19_comment_dropped_outside_item_lists is gone: a dropped comment is a VIOLATION again.
+# The classifiers below recognise two crashes that belong to C20 (never crashes) but also break
+# C19's "declines or emits"; both are repaired too and no finding line refers to them any more.
 
 
 def _is(op):
     return op.get("op") == "fmt.validate"
-
-
-def c19_comment_dropped_outside_item_lists(op, impl, model, args):
-    """The only failed sub-check is the comment comparison; the output's comments are a subsequence
-    of the input's (nothing reordered, duplicated or altered); and every lost comment sits in a
-    syntax node for which the formatter collects no trivia at all (`args.carried_parents` lists the
-    nodes for which it does: a comment lost directly inside one of those is NOT excused, except
-    before the `;` of a local, see lib.rs "TODO: keep end_comments")."""
-    if not (_is(op) and op.get("outcome") == "formatted" and isinstance(model, dict)):
-        return False
-    if model.get("_fail") != ["comments"] or not model.get("_out_comments_subseq"):
-        return False
-    lost = op.get("lost_comments") or []
-    if not lost:
-        return False
-    if len(lost) != model.get("_n_comments", -1) - model.get("_n_out_comments", -2):
-        return False
-    carried = set(args.get("carried_parents", []))
-    exceptions = [tuple(e) for e in args.get("carried_except", [])]
-    for l in lost:
-        site = (l.get("parent"), l.get("prev"), l.get("next"))
-        if site[0] in carried and not any(all(p == "*" or p == s for p, s in zip(e, site)) for e in exceptions):
-            return False
-    return True
 
 
 def c19_panic_dprint_raw_tab_or_newline(op, impl, model, args):
